@@ -163,12 +163,31 @@ def make_sequences(mode, nev, rnd):
 def build_cases(spec, tier, uni, rnd):
     trees = []
     gen_states = gen_trans = 0
-    for entry in spec.profiles[tier]:
+    profiles = spec.profiles[tier]
+    if os.environ.get("VERIF_PROFILES"):      # ad-hoc exploration only; no registered command sets it
+        # cfg[@backend][+md10]
+        profiles = []
+        for c in os.environ["VERIF_PROFILES"].split(","):
+            o = {}
+            if c.endswith("+md10"):
+                c, o["md10"] = c[:-5], True
+            if "@" in c:
+                c, o["backend"] = c.split("@")
+            profiles.append((c, None, o))
+    capped = False
+    for entry in profiles:
         cfg, sim = entry[0], entry[1]
-        opts = entry[2] if len(entry) > 2 else {}
+        opts = dict(entry[2]) if len(entry) > 2 else {}
+        own_cap = opts.pop("cap", None)
         qs, r = pipeline.generate_queries(cfg, simulate=sim)
         gen_states += r.distinct
         gen_trans += r.generated
+        if own_cap and len(qs) > own_cap[tier]:
+            # a profile with its own share: smallest terms first, the rest sampled
+            n = own_cap[tier]
+            qs.sort(key=lambda t: len(render.compact(t["q"])))
+            qs = qs[:n // 2] + rnd.sample(qs[n // 2:], n - n // 2)
+            capped = True
         for t in qs:
             t["opts"] = opts
         trees.extend(qs)
@@ -181,7 +200,9 @@ def build_cases(spec, tier, uni, rnd):
             uniq.append(t)
     total = len(uniq)
     cap = spec.cap[tier]
-    exhaustive = True
+    if os.environ.get("VERIF_CAP"):
+        cap = int(os.environ["VERIF_CAP"])
+    exhaustive = not capped
     if total > cap and spec.stratify:
         # equal share per stratum (e.g. per math function), smallest terms first inside each
         groups = {}
@@ -222,8 +243,8 @@ def build_cases(spec, tier, uni, rnd):
             md = None
             if declv != "none" or opts.get("fnmd"):
                 md = [{k: v for k, v in m.items() if v != ""} for m in uni["md"][b]]
-            if declv != "none":
-                cm = dict(uni["collmd"][b][declv])
+            for one in {"none": [], "both_za": ["fresh_Z", "replace_A"], "both_az": ["replace_A", "fresh_Z"]}.get(declv, [declv]):
+                cm = dict(uni["collmd"][b][one])
                 if b != "atlas":
                     cm.pop("link_libraries", None)
                 md.append(cm)
